@@ -6,6 +6,12 @@ CONSTANTS
   SetNames = {0}
   Classes = {"ZONE"}
   OriginRefs = {0, 5}
+  RefFrom = "NONE"
+  RefTo = "NONE"
+  HeaderShare = FALSE
+  OkSet = {TRUE, FALSE}
+  ForeignRefCheck = TRUE
+  HeaderSetCheck = TRUE
   ItemRefs = {0, 5}
 INVARIANT PrintLeaf
 CHECK_DEADLOCK FALSE
